@@ -669,6 +669,19 @@ func (x *Exec) evalPure(fr *Frame, st *State, v ssa.Value, h *ssa.BasicBlock, ov
 	case *ssa.ChangeType:
 		a := x.evalPure(fr, st, t.X, h, over, depth+1)
 		return Val{T: t.Type(), L: a.L}
+	case *ssa.UnOp:
+		// a variable kept in a cell (captured by a closure later on): its value at the loop head
+		// is what the cell holds there
+		if t.Op == token.MUL {
+			if _, isAlloc := t.X.(*ssa.Alloc); isAlloc {
+				if _, defined := fr.vals[t.X]; defined {
+					sf := &Frame{spec: true, fn: fr.fn, lpkg: fr.lpkg, id: fr.id}
+					r := x.load(sf, st, x.val(fr, t.X), nil)
+					r.T = t.Type()
+					return r
+				}
+			}
+		}
 	}
 	return x.val(fr, v)
 }
@@ -680,10 +693,31 @@ func (x *Exec) resolveLocal(fr *Frame, st *State, li *loopInfo, lr LocalRef, ove
 	// address-taken variable: load from its cell
 	for _, d := range refs {
 		if d.IsAddr {
+			if _, defined := fr.vals[d.X]; !defined {
+				if _, isIns := d.X.(ssa.Instruction); isIns {
+					continue // the cell is created later in the function (not yet at this loop)
+				}
+			}
 			pv := x.val(fr, d.X)
 			sf := &Frame{spec: true, fn: fr.fn, lpkg: fr.lpkg, id: fr.id}
 			v := x.load(sf, st, pv, nil)
 			return v
+		}
+	}
+	// a parameter that is never reassigned
+	for _, p := range fr.fn.Params {
+		if p.Name() == lr.Name && p.Object() != nil && p.Object().Pos() == lr.Pos {
+			if v, ok := fr.vals[p]; ok {
+				allAddr := len(refs) > 0
+				for _, d := range refs {
+					if !d.IsAddr {
+						allAddr = false
+					}
+				}
+				if allAddr {
+					return v // only ever referenced through a cell that does not exist yet
+				}
+			}
 		}
 	}
 	// phi at this header?
